@@ -60,7 +60,9 @@ def scenario(ck, trial, tier, cs0, max_attempts=None):
         # servers: host1 answers hello with a foreign nonce, host2 echoes OUR nonce (a connection to ourselves),
         # host3 accepts but never says hello, host4/5: nobody listens (refused)
         srv = {1: net.add_server(HOSTS[1]), 2: net.add_server(HOSTS[2]), 3: net.add_server(HOSTS[3])}
+        net.unreachable = {HOSTS[5]}          # no route to host 5: connecting fails on the spot (host 4: refused later)
         attempts = []
+        self_detected = [None]       # when the node first got its own nonce back from host 2 (= it dialled itself)
         direct = [False]
         orig_start = lp.start_outgoing_connection
 
@@ -142,14 +144,18 @@ def scenario(ck, trial, tier, cs0, max_attempts=None):
                 c = live[0]
                 nonce = lp.nonce if h == 2 else 4242
                 mid += 1
-                c.send(framed(net, hello_msg(2412, nonce), mid))
+                # the port a listener announces for itself need not be the one we dialled (port forwarding / NAT)
+                announced = 2412 if rng.random() < 0.5 else 2999
+                c.send(framed(net, hello_msg(announced, nonce), mid))
                 key = (HOSTS[h], 2412, 'OUTGOING')
                 was = key in nm.connected_peers and nm.connected_peers[key].sock is c.other
                 for e in [e for e in node.enabled() if e[1] is c.other]:
                     node.fire(e)
                 if not was:
                     continue
-                ev = [2, h, 2412, 1, 2412, h == 2]
+                ev = [2, h, 2412, 1, announced, h == 2]
+                if h == 2 and self_detected[0] is None:
+                    self_detected[0] = net.clock()
                 kind = 'hello/%s' % ('self' if h == 2 else 'foreign')
             elif r < 0.62:
                 # a server drops one of its connections
@@ -255,6 +261,25 @@ def scenario(ck, trial, tier, cs0, max_attempts=None):
             if (HOSTS[key[0]], key[1]) in nm.my_addresses:
                 when = [x[0] for x in lst]
                 # no attempt after the address was recognised as our own
+        # back-off for addresses that never greet (hosts 3, 4, 5), computed from the history alone: the j-th dial by the
+        # node in a row comes at least min(first * 2^(j-1), max) seconds after the one before
+        for key, lst in by.items():
+            if key[0] not in (3, 4, 5):
+                continue
+            j = 0
+            prev_t = None
+            for (tm, _ban, drc) in lst:
+                if drc:
+                    j, prev_t = 1, tm
+                    continue
+                if prev_t is not None and j >= 1:
+                    need = min(NP.TIME_TO_SECOND_CONNECTION_ATTEMPT * 2 ** (j - 1), NP.MAX_TIME_BETWEEN_CONNECTION_ATTEMPTS)
+                    if tm - prev_t < need:
+                        ck.violation('retry-too-early', 'address %s never greeted; its dial #%d in a row came %d s after the previous '
+                                     'one (minimum %d s)' % (key, j + 1, tm - prev_t, need), {'trial': trial, 'attempts': lst[:12]})
+                        break
+                j += 1
+                prev_t = tm
         # give-up: an address whose every connection ended without a greeting (hosts 3, 4, 5 never greet) is dialled at most
         # limit + 1 times by the node itself, announcements of it notwithstanding
         limit = max_attempts if max_attempts is not None else NP.MAX_CONNECTION_ATTEMPTS
@@ -277,6 +302,12 @@ def scenario(ck, trial, tier, cs0, max_attempts=None):
             k_ = (hst, port, 'OUTGOING')
             if k_ in nm.connected_peers:
                 ck.violation('self-connection-kept', 'a connection to the node itself stays connected', {'trial': trial})
+        if self_detected[0] is not None:
+            later = [a for a in attempts if a[0] == 2 and a[1] == 2412 and not a[4] and a[2] > self_detected[0]]
+            if later:
+                ck.violation('self-connection-retried', 'the node recognised (host 2, port 2412) as itself at t=%d (its own nonce came '
+                             'back) and dialled that address again %d time(s) afterwards' % (self_detected[0], len(later)),
+                             {'trial': trial, 'later_attempts': later[:6]})
         self_attempts = [a for a in attempts if a[0] == 2]
         if len(self_attempts) > 1 and any((HOSTS[2], 2412) in nm.my_addresses for _ in [0]):
             # attempts to ourselves after detection are a violation; detection happens at the first hello
@@ -363,6 +394,7 @@ def run(tier, seed):
         patched = []
         if ma is not None:
             import sys
+            from skepticoin.networking import local_peer as _lp, remote_peer as _rp, manager as _mg   # noqa (loaded before patching)
             for mn, mod in list(sys.modules.items()):
                 if mn.startswith('skepticoin.networking') and hasattr(mod, 'MAX_CONNECTION_ATTEMPTS'):
                     patched.append((mod, mod.MAX_CONNECTION_ATTEMPTS))
